@@ -19,7 +19,7 @@ CHECKS = {
   ref="DESIGN.md §5 C03"),
  "C04": dict(
   text="bounded symbolic model checking at composition level of the callback, attribute-query and metadata routes with idealised signatures: (a) Redirect binding: the octets handed to the signer equal the octets a conformant verifier rebuilds from the Location actually sent (word equations over the escaping function, cvc5), SigAlg is the algorithm URI used, Signature is the base64 of the signer's bytes escaped once; (b) enveloped signatures: the value snapshot signed equals the snapshot that reaches the encoder and the ds:Signature on the wire equals member for member what the signer returned; (c) no Success message leaves unsigned, for stored bindings POST / Redirect and any (also empty) consumer URL",
-  note="xmlsig's canonical form is a contract read from its source: it equals exclusive C14N of the wire document unless a signed text contains & < > CR or a signed attribute value & < \" TAB LF CR - on the pinned tree that region is a genuine, natively reproduced defect of the dependency, recorded as known finding C04.xmlsig-digests-text-unescaped (DESIGN §9.10); RSA/SHA themselves are idealised; tag-level effects on the canonical form (seeded change C04-xml-lang-attribute-namespaced) are not detected; size-dependent paths are reached through the length abstraction and the amplified replay (DESIGN §9.8); history: a signed-metadata request with another key pair first (DESIGN §9.6)",
+  note="xmlsig's canonical form is a contract read from its source: it equals exclusive C14N of the wire document unless a signed text contains & < > CR or a signed attribute value & < \" TAB LF CR - on the pinned tree that region is a genuine, natively reproduced defect of the dependency, recorded as known finding C04.xmlsig-digests-text-unescaped (DESIGN §9.10); RSA/SHA themselves are idealised; of the tag-level effects on the canonical form only attributes in the predefined xml namespace are modelled (DESIGN §9.14); size-dependent paths are reached through the length abstraction and the amplified replay (DESIGN §9.8); history: a signed-metadata request with another key pair first (DESIGN §9.6)",
   ref="DESIGN.md §5 C04"),
  "C05": dict(
   text="bounded symbolic model checking of the SSO route with idealised signatures: parameters in query and/or body (so moving a message or its signature to the other binding is a valuation), AuthnRequestsSigned / WantAuthRequestsSigned over {absent,true,false,1,0,any string}, 0..1 (quick) / 0..2 (thorough) key descriptors with symbolic key type, arbitrary embedded Signature / KeyInfo shape, arbitrary Signature / SigAlg parameters; the simulated SP signs nothing, so every signature value is a forgery: the solver decides that no path reaches CreateAuthRequest when signing is required by either side, or when any non-empty signature value (query parameter or ds:SignatureValue, on either binding) is present; the signed-request harness (HarnessSSOSigned) adds one validly signed Redirect request and decides that acceptance implies the values acted on are exactly the signed ones",
@@ -71,7 +71,7 @@ CHECKS = {
   ref="DESIGN.md §5 C17"),
  "C18": dict(
   text="symbolic model checking of the codec functions under the stream contracts: InflateAndDecode returns an error for every encoding identifier outside {\"\", DEFLATE} (all strings); InflateAndDecode(DEFLATE, true, DeflateAndBase64(x)) returns x or an error, and x whenever len(x) <= 1 MiB; also when other messages are encoded in between; every reply of every route is exactly one document produced by encoding/xml's encoder, and what the library's decoder returns for it equals what was handed to the encoder - custom MarshalXML / UnmarshalXML / MarshalText / UnmarshalText methods of module types are executed from their SSA inside the contracts (DESIGN §9.7)",
-  note="character-level escaping ('illegal characters are replaced, never restructure') is encoding/xml's EscapeText, flate's codec is the library's: contracts, not encoded; what a struct tag makes encoding/xml write (chardata vs cdata, namespaces of attributes; Level T) is NOT modelled - seeded change C18-organisation-names-as-cdata is not detected (DESIGN §9.13)",
+  note="character-level escaping ('illegal characters are replaced, never restructure') is encoding/xml's EscapeText, flate's codec is the library's: contracts, not encoded; of what a struct tag makes encoding/xml write (Level T) only the CDATA rule is modelled (DESIGN §9.14)",
   ref="DESIGN.md §5 C18"),
  "C19": dict(
   text="symbolic model checking of StaticIssuer / ValidateIssuer / NewProvider over the components url.Parse may return (lazy *url.URL) and of the host-derived issuer over symbolic Host / forwarded-header parser results / path / insecure flag: acceptance => non-empty, parses, host non-empty, https (http only with the insecure flag), no fragment, no query; dynamic issuer = scheme + '://' + first forwarded host else Host + path with a leading slash, containing no other request-derived symbol",
